@@ -44,6 +44,12 @@ for k in known:
     if k['status'] == 'known':
         kn.append('| %s | %s | %s | `%s` |' % (k['property'], k['kind'], k['description'], k.get('witness', '')[:120]))
 s = fill(s, 'known', '\n'.join(kn))
+inv = []
+for pid in sorted(props.PROPS):
+    p = props.PROPS[pid]
+    inv.append('* **%s** - ' % pid + '; '.join('`%s`' % n for t in p['theorems'] for n in t[1]))
+if '<!-- BEGIN:inventory -->' in s:
+    s = fill(s, 'inventory', '\n'.join(inv))
 rp = os.path.join(ROOT, 'seeded/RESULTS.md')
 s = fill(s, 'seeded', open(rp).read() if os.path.exists(rp) else '(run tools/mutant_matrix.py)')
 open(os.path.join(ROOT, 'DESIGN.md'), 'w').write(s)
